@@ -109,8 +109,13 @@ class DirHandler(BaseHandler):
             return False
 
         if time.time() - statval[stat.ST_MTIME] < self.cachetime:
-            with self.vfs.open(self.cachename, "rb") as fp:
-                self.fileentries = pickle.load(fp)
+            try:
+                with self.vfs.open(self.cachename, "rb") as fp:
+                    self.fileentries = pickle.load(fp)
+            except Exception:
+                # A truncated or corrupt cache file (a writer that was killed
+                # or has not finished yet) is a cache miss, not an error.
+                return False
             self.fromcache = True
             return True
         return False
